@@ -262,6 +262,15 @@ def rules(rep, facts):
         r16_printed_pieces(rep, facts)
         from .rules_print import r17_conversions
         r17_conversions(rep, facts)
+    if 'toml_write' in facts.crates:
+        # every string and key the API can hold goes through the toml_write builders: what they write has to be a string of the grammar that
+        # decodes to the same text (seeded change C06-m18: DEL no longer counted as needing an escape -> a raw 0x7F inside a literal string)
+        from .rules_c10 import r5_totality, r9_written_text, Abnf as _Abnf
+        _a = _Abnf()
+        r5_totality(rep, facts, _a)
+        rep.relabel('C10/R5', 'C06/R18', 'every string or key the API can hold is written in a style the grammar accepts for it: ')
+        r9_written_text(rep, facts, _a)
+        rep.relabel('C10/R9', 'C06/R18b', 'every string or key the API can hold is written as text that reads back: ')
     R8 = rep.rule('C06/R8', 'no order-breaking operation / unstable sort in the printers (the same structure always prints the same, valid header order)', floor=2)
     order_ops(rep, R8, facts)
 
